@@ -383,6 +383,9 @@ void on_sanitizer_death() {
 
 void on_signal(int sig) {
   // Only async-signal-unsafe in theory; the process is going down anyway.
+#ifdef SIM_ASAN
+  __sanitizer_print_stack_trace();  // to stderr: the driver keeps the tail of every worker's stderr
+#endif
   die(std::string("signal"), "signal " + std::to_string(sig));
 }
 
@@ -785,6 +788,18 @@ int __wrap_pthread_mutex_unlock(pthread_mutex_t* m) {
     }
   sim::do_point(st, sim::K_MUTEX_UNLOCK, nullptr);
   return rc;
+}
+
+// libstdc++ precondition failure (-D_GLIBCXX_ASSERTIONS: span/vector/string index and range checks). Calls come from
+// header code compiled into our objects, so the link-time wrap sees them; report what failed instead of a bare abort.
+void __wrap__ZSt21__glibcxx_assert_failPKciS0_S0_(const char* file, int line, const char* func, const char* cond) {
+  const char* base = file ? strrchr(file, '/') : nullptr;
+  std::string fn(func ? func : "?");
+  if (fn.size() > 160) fn = fn.substr(0, 160) + "...";
+#ifdef SIM_ASAN
+  __sanitizer_print_stack_trace();
+#endif
+  sim::die("stdlib-precondition", std::string(cond ? cond : "?") + " @ " + (base ? base + 1 : (file ? file : "?")) + ":" + std::to_string(line) + " " + fn);
 }
 
 void __assert_fail(const char* expr, const char* file, unsigned line, const char* func) noexcept(true) {
